@@ -284,6 +284,7 @@ theorem inv_step (s : FSt) (op : Sys) (hinv : Inv s) (hok : opOK s op = true) : 
     cases hl : inoOf s src with
     | none => exact inv_tick s hinv
     | some i => exact inv_rename s _ src dst i hinv rfl rfl rfl hsrc hl
+  | link src dst => simp [opOK] at hok
   | mark =>
     simp only [apply, inoOf_tick]
     cases hl : inoOf s ck with
